@@ -4,7 +4,7 @@ spec/ref/MortarMapsRef.tla   exact rational model of the eight projections of a 
                              (overlap length / cell length), the steps update_mortar / update_secondary / update_primary
                              as the code composes them, and the C26 clauses PER MORTAR SIDE;
 spec/sys/MortarMaps.tla      state machine over a catalogue of partitions; TLC checks the clauses on every history
-                             (design) and that duplicated primary faces in update_primary break them (vacuity);
+                             (design) and that the duplicated primary faces of update_primary before fix d70d13e66 break them (vacuity);
 spec/trace/J_MortarMaps.tla  verdict: TLC judges the matrices recorded from porepy (exact rationals for 1-d interfaces,
                              fixed-point integers for the 2-d catalogue);
 spec/trace/T_MortarMaps.tla  conformance: every recorded replacement is the model's step and the recorded matrices equal
@@ -238,16 +238,6 @@ def apply(d: Drv, e):
     return dict(res="ok")
 
 
-def _multi(o):
-    """does some primary face feed two or more mortar cells of its side (a column of primary_to_mortar_int with two or more
-    non-zero entries)?  Classification of the known finding, not part of any verdict."""
-    for block in o["p2mI"]:
-        for j in range(len(block[0]) if block else 0):
-            if sum(1 for row in block if row[j][0] != 0) >= 2:
-                return True
-    return False
-
-
 def make_actions(name, parts, host, depth_full, sample, seed):
     c = CONFIGS[name]
 
@@ -264,7 +254,7 @@ def make_actions(name, parts, host, depth_full, sample, seed):
         for b in parts:
             acts.append(dict(ev="us", part=b))
         for b in host:
-            acts.append(dict(ev="up", part=b, multi=_multi(o)))
+            acts.append(dict(ev="up", part=b))
         if p["nsteps"] >= depth_full and sample:
             r = random.Random(zlib.crc32(repr((seed, name, p["nsteps"], o["prim"], o["mort"], o["sec"])).encode()))
             acts = r.sample(acts, min(sample, len(acts)))
@@ -378,6 +368,20 @@ REFUSED_2D = [[dict(ev="us2cart")], [dict(ev="up2")]]
 
 
 # ===================================================================== TLC runs
+# TLC evaluates the lazily built rational matrix products of MortarMapsRef recursively; with the default 1 MB thread
+# stack a worker now and then dies with a Java StackOverflowError (seen under heavy machine load, reproducible with
+# -Xss600k).  All TLC runs of this module therefore get a larger thread stack.
+_JVM = {"JAVA_TOOL_OPTIONS": "-Xss64m"}
+
+
+def _judge(ctx, cases, workers=8, tag=None):
+    """ctx.judge (spec/lib/Judge.tla idiom) with the larger thread stack"""
+    tag = tag or f"j{len(ctx.tlc_runs)}"
+    f = ctx.datafile(f"cases_{tag}.json", cases)
+    m, cf = tlc.gen(ctx.work / tag, "MC_J_MortarMaps", "J_MortarMaps", {}, spec="JSpec", invariants=list(CLAUSES))
+    return ctx.tlc(m, cf, workers=workers, env=dict(_JVM, VERIF_CASES=f), allow_violation=False).records
+
+
 def design(ctx, parts, host, um_extra, steps, dup):
     idx = {tuple(b): k + 1 for k, b in enumerate(parts)}
     um = [[k, k] for k in range(1, len(parts) + 1)]
@@ -387,12 +391,12 @@ def design(ctx, parts, host, um_extra, steps, dup):
                   MaxSteps=steps, DupFaces=dup)
     m, cf = tlc.gen(ctx.work / f"design_{dup}", "MC_MortarMaps", "MortarMaps", consts,
                     invariants=["PartsOK", "Laws"])
-    return ctx.tlc(m, cf, workers=8, allow_violation=dup)
+    return ctx.tlc(m, cf, workers=8, env=dict(_JVM), allow_violation=dup)
 
 
 def conformance(ctx, gfile):
     m, cf = tlc.gen(ctx.work / "trace", "MC_T_MortarMaps", "T_MortarMaps", {}, spec="TSpec", view="TView")
-    return ctx.tlc(m, cf, workers=8, env={"VERIF_GRAPH": gfile}, allow_violation=False)
+    return ctx.tlc(m, cf, workers=8, env=dict(_JVM, VERIF_GRAPH=gfile), allow_violation=False)
 
 
 def _report(ctx, cases, metas, verdicts):
@@ -400,9 +404,7 @@ def _report(ctx, cases, metas, verdicts):
         meta = metas[v["case"] - 1]
         if len(ctx.violations) >= MAX_REPORTED:
             ctx.extra["violations_not_listed"] = ctx.extra.get("violations_not_listed", 0) + 1
-            # still let the known-finding matcher count it
-            if not any(ctx.matchers.get(k["matcher"], lambda r: False)(dict(clause=v["clause"], **meta)) for k in ctx.known):
-                continue
+            continue
         rec = dict(meta, observed=cases[v["case"] - 1])
         ctx.violation(v["clause"], rec, f"{meta['config']} interface {meta['interface']} after {meta['history']}"[:300])
 
@@ -466,7 +468,7 @@ def run(ctx):
     ctx.extra["refused_for_2d_interfaces"] = refused
     verdicts = []
     for k in range(0, len(cases), 4000):
-        for v in ctx.judge("J_MortarMaps", cases[k:k + 4000], CLAUSES, workers=8):
+        for v in _judge(ctx, cases[k:k + 4000]):
             verdicts.append(dict(case=v["case"] + k, clause=v["clause"]))
     _report(ctx, cases, metas, verdicts)
     # (4) conformance of the 1-d histories with the model
@@ -482,11 +484,6 @@ def run(ctx):
                       f"{ {k: v for k, v in e.items() if k != 'dst'} }")
         for _ in missing[2:]:
             ctx.drift("")
-        # informational: how many of the rejected transitions are update_primary calls on a mortar grid some primary
-        # face of which feeds several mortar cells (the situation of the known finding)
-        k1 = sum(1 for _, _, e in missing if e["ev"] == "up" and e.get("multi"))
-        ctx.extra["drift_update_primary_multi"] = ctx.extra.get("drift_update_primary_multi", 0) + k1
-        ctx.extra["drift_other"] = ctx.extra.get("drift_other", 0) + len(missing) - k1
     g0 = graphs[0]
     n0 = len(g0["nodes"])
     ctx.sample(dict(config=g0["config"], history=ex.path_to(g0, n0),
@@ -508,15 +505,5 @@ def replay(ctx, body):
         case = dict(kind="exact", err=node["err"]) if node["err"] else node["ifs"][rec["interface"] - 1]
     ctx.case(key="replay")
     ctx.sample(rec["history"])
-    for v in ctx.judge("J_MortarMaps", [case], CLAUSES, workers=1):
+    for v in _judge(ctx, [case], workers=1):
         ctx.violation(v["clause"], dict(rec, observed=case), "replayed")
-
-
-# ===================================================================== known-finding matchers
-def _dup_faces(rec):
-    """the history contains update_primary (host replaced) at a moment when some primary face fed two or more mortar cells of
-    its side: match_grids_along_1d_mortar then lists that face once per mortar cell and its weights come out multiplied"""
-    return any(e.get("ev") == "up" and e.get("multi") for e in rec.get("history", []))
-
-
-MATCHERS = {"c26_update_primary_duplicate_faces": _dup_faces}
